@@ -31,7 +31,14 @@ VARIANTS = {
     # the pinned test build is -DNDEBUG: struct lp_msg is smaller there (no sender fields) and asserts are off
     'core_ndebug': (['-DNDEBUG'], 'distributed/no_mpi.c', []),
     'core_mpi_ndebug': (['-DNDEBUG'], 'distributed/mpi.c', [os.path.join(VERIF, 'hx', 'fakempi')]),
+    # atomic-step variant: ThreadSanitizer *instrumentation* of the atomics only, no ThreadSanitizer runtime - the calls land in
+    # hx/tsan_hooks.c, which makes every atomic operation of the core a scheduling point (AddressSanitizer cannot be combined)
+    'core_atomics': ([], 'distributed/no_mpi.c', []),
 }
+TSAN_CF = ['-fsanitize=thread', '-mllvm', '-tsan-instrument-memory-accesses=0', '-mllvm', '-tsan-instrument-func-entry-exit=0',
+           '-mllvm', '-tsan-instrument-memintrinsics=0']
+SAN_OF = {'core_atomics': ['-g', '-O1', '-fsanitize=undefined', '-fno-sanitize-recover=undefined', '-fno-omit-frame-pointer']}
+LINK_SAN_OF = {'core_atomics': ['-fsanitize=undefined']}
 
 
 def log(*a):
@@ -177,7 +184,8 @@ def build_variant(variant, bdir):
         o = os.path.join(odir, s.replace('/', '_')[:-2] + '.o')
         objs[s] = o
         if not os.path.exists(o):
-            cmd = ['clang'] + CSTD + SAN + GUARD + extra + ['-I' + i for i in incs] + ['-I' + os.path.join(REPO, 'src'), '-c',
+            san = SAN_OF.get(variant, SAN) + (TSAN_CF if variant == 'core_atomics' else [])
+            cmd = ['clang'] + CSTD + san + GUARD + extra + ['-I' + i for i in incs] + ['-I' + os.path.join(REPO, 'src'), '-c',
                                                                                      os.path.join(REPO, 'src', s), '-o', o + '.tmp']
             jobs.append((cmd, o))
     if jobs:
@@ -192,7 +200,7 @@ def build_check(spec):
     variant = spec.get('variant', 'core')
     hx_files = spec['hx']
     key = sha_tree([os.path.join(REPO, 'src'), os.path.join(VERIF, 'hx'), os.path.join(VERIF, 'drv')],
-                   extra=json.dumps([SAN, GUARD, VARIANTS[variant][0]]))
+                   extra=json.dumps([SAN_OF.get(variant, SAN), GUARD, VARIANTS[variant][0], variant == 'core_atomics']))
     os.makedirs(BUILD_ROOT, exist_ok=True)
     bdir = os.path.join(BUILD_ROOT, key)
     os.makedirs(bdir, exist_ok=True)
@@ -215,7 +223,7 @@ def build_check(spec):
             o = os.path.join(hdir, f.replace('/', '_')[:-2] + '.o')
             hobjs.append(o)
             if not os.path.exists(o):
-                cmd = ['clang'] + CSTD + SAN + GUARD + extra + spec.get('cflags', []) + spec.get('file_cflags', {}).get(f, []) + \
+                cmd = ['clang'] + CSTD + SAN_OF.get(variant, SAN) + GUARD + extra + spec.get('cflags', []) + spec.get('file_cflags', {}).get(f, []) + \
                       ['-Wall', '-Wno-unused-function'] + \
                       ['-I' + i for i in incs] + ['-I' + os.path.join(REPO, 'src'), '-I' + os.path.join(VERIF, 'hx'), '-c',
                                                    os.path.join(VERIF, 'hx', f), '-o', o + '.tmp']
@@ -229,7 +237,7 @@ def build_check(spec):
         post = spec.get('postprocess')
         if post:
             core_objs, hobjs = post(spec, bdir, core_objs, hobjs)
-        cmd = ['clang++', '-fsanitize=address,undefined', '-o', exe + '.tmp', drv] + hobjs + core_objs + \
+        cmd = ['clang++'] + LINK_SAN_OF.get(variant, ['-fsanitize=address,undefined']) + ['-o', exe + '.tmp', drv] + hobjs + core_objs + \
               ['-lrapidcheck', '-lm', '-lpthread']
         r = run(cmd, stdout=subprocess.PIPE, stderr=subprocess.STDOUT)
         if r.returncode != 0:
